@@ -269,6 +269,8 @@ def run(report: core.Report):
     report.explanation = ("Classification table checks on Method.paged_result_field (pattern matching tolerant of loop or unrolled form), "
                           "control-flow and who-may-write rules on every pager class skeleton (sync/async, list/map), and client wiring.")
     report.assumptions.append("the argument from C07.2/C07.3 to 'every item exactly once, in order' over page histories is by reading, not mechanised")
+    from .common_rules import loader_order
+    loader_order(report, "C07.O", "the paged item field is the FIRST repeated field of the response")
     lib = Lib()
     check_classification(report)
     seen = check_pagers(report, lib, ("grpc", "rest"))
